@@ -33,7 +33,7 @@ theorem nextRaw_push (r : Rd) (x : Item) (n : Nat)
     (h : (x.isComment && r.ignoreComments) = false) :
     nextRaw (n + 1) (r.push x) = (.ok x, r) := by
   have hp := Rd.push_pop r x
-  simp only [nextRaw, Rd.push] at *
+  simp only [nextRaw, popOrRead, Rd.push] at *
   simp [h]
 
 theorem nextRawFuel_pos (r : Rd) : ∃ n, nextRawFuel r = n + 1 := ⟨_, rfl⟩
